@@ -10,7 +10,13 @@ use crate::{
 };
 use tracing::{trace, warn};
 
-use instant::{Duration, Instant};
+#[cfg(feature = "verif-hooks")]
+use crate::verif::clock::Instant;
+#[cfg(feature = "verif-hooks")]
+use crate::verif::rng as rand;
+use instant::Duration;
+#[cfg(not(feature = "verif-hooks"))]
+use instant::Instant;
 use std::collections::vec_deque::Drain;
 use std::collections::{HashMap, HashSet, VecDeque};
 use std::convert::TryFrom;
@@ -40,6 +46,10 @@ const QUALITY_REPORT_INTERVAL: Duration = Duration::from_millis(200);
 pub const MAX_CHECKSUM_HISTORY_SIZE: usize = 32;
 
 fn millis_since_epoch() -> u128 {
+    #[cfg(feature = "verif-hooks")]
+    if let Some(ms) = crate::verif::clock::virtual_ms() {
+        return u128::from(ms);
+    }
     #[cfg(not(target_arch = "wasm32"))]
     {
         std::time::SystemTime::now()
@@ -807,6 +817,35 @@ impl<T: Config> UdpProtocol<T> {
                 .retain(|&frame, _| frame >= oldest_frame_to_keep);
         }
         self.pending_checksums.insert(body.frame, body.checksum);
+    }
+
+    #[cfg(feature = "verif-hooks")]
+    pub(crate) fn verif_info(&self) -> crate::verif::EndpointInfo {
+        crate::verif::EndpointInfo {
+            state: match self.state {
+                ProtocolState::Initializing => "Initializing",
+                ProtocolState::Synchronizing => "Synchronizing",
+                ProtocolState::Running => "Running",
+                ProtocolState::Disconnected => "Disconnected",
+                ProtocolState::Shutdown => "Shutdown",
+            },
+            pending_output: self.pending_output.len(),
+            recv_inputs: self.recv_inputs.len(),
+            pending_checksums: self.pending_checksums.len(),
+            sync_random_requests: self.sync_random_requests.len(),
+            send_queue: self.send_queue.len(),
+            event_queue: self.event_queue.len(),
+            last_acked_frame: self.last_acked_input.frame,
+            last_recv_frame: self.last_recv_frame(),
+            local_frame_advantage: self.local_frame_advantage,
+            remote_frame_advantage: self.remote_frame_advantage,
+            round_trip_time: self.round_trip_time,
+            peer_connect_status: self
+                .peer_connect_status
+                .iter()
+                .map(|s| (s.disconnected, s.last_frame))
+                .collect(),
+        }
     }
 
     /// Returns the frame of the last received input
